@@ -6,6 +6,8 @@ selection by interval (<=255 -> 1 byte, >=256 -> 8 bytes big-endian), MORE on al
 body = the measured frame, declared command length = bytes written, greeting layout, name tables.
 Does NOT decide byte-for-byte round-trip equality of arbitrary messages (copying is trusted to `bytes`)."""
 from ..sym import Sym, show, interval_of, walk_expr, PathExplosion
+from ..facts import callee_name
+from .. import pathq
 from ..common import (trait_impls, short, len_base, slice_base, strip_casts, SOCKET_TYPES)
 from . import tables
 
@@ -598,28 +600,69 @@ def check_ready(f, rep):
     tables.check_name_table(f, rep, "R01.7", "SocketType", SOCKET_TYPES, want_reader=True)
     tables.check_name_table(f, rep, "R01.6", "ZmqMechanism", ["NULL", "PLAIN", "CURVE"], want_reader=True, maxlen=20)
     tables.check_name_table(f, rep, "R01.7", "ZmqCommandName", ["READY"], want_reader=False)
-    # Identity announced iff configured
-    pc = [b for b in f.bodies if b.path.endswith("util::peer_connected::{closure#0}")]
-    rep.floor("R01.7", "handshake driver util::peer_connected", len(pc), 1)
-    for b in pc:
-        ins = []
-        for bb, t, fn in b.calls():
-            if fn and fn["name"] == "insert":
-                ins.append(bb)
-        strs = [st for blk in b.blocks for st in blk["stmts"] if st["k"] == "assign"]
-        has_identity = any("\"Identity\"" in (a.get("val") or "") for blk in b.blocks for t in [blk["term"]] if t["k"] == "call" for a in t["args"] if a["k"] == "const") or \
-            any(st["rv"].get("op", {}).get("val", "") == 'const "Identity"' or '"Identity"' in str(st["rv"]) for st in strs)
-        rep.check(has_identity and len(ins) >= 1, "R01.7", "R01.7|identity-announced", "handshake inserts an \"Identity\" property (insert sites=%d)" % len(ins), b.loc())
-        # the insert is dominated by the Some edge of the configured identity option
-        ok_dom = False
-        for ib in ins:
-            for d in b.dom[ib]:
-                t = b.term(d)
-                if t["k"] == "switch":
-                    e = b.expr_of_operand(t["op"])
-                    if e[0] == "discr" and any(isinstance(x, tuple) and x and x[0] == "field" and x[2] == "peer_id" for x in walk_expr(e)):
-                        ok_dom = True
-        rep.check(ok_dom, "R01.7", "R01.7|identity-iff-configured", "Identity insertion is guarded by the socket option being Some", b.loc())
+    check_identity_announced(f, rep)
+
+
+PROPS_TY = "std::option::Option<std::collections::HashMap<std::string::String, bytes::Bytes"
+
+
+def is_identity_option(x):
+    """the configured identity: a field of type Option<PeerIdentity> (of the socket options), by type"""
+    return x[0] == "field" and str(x[3]).startswith("std::option::Option<") and "PeerIdentity" in str(x[3])
+
+
+def _identity_insert(ev, value_pred):
+    """an insert(map, key, value) whose key is the text "Identity" and whose value derives from the configured identity"""
+    if not (ev.kind == "call" and short(ev.name) == "insert" and len(ev.args) >= 3):
+        return False
+    key_ok = any(tables.const_str(y) == "Identity" for y in walk_expr(ev.args[1]))
+    val_ok = any(isinstance(y, tuple) and y and value_pred(y) for y in walk_expr(ev.args[2]))
+    return key_ok and val_ok
+
+
+def check_identity_announced(f, rep):
+    """R01.7 (identity clause): the property map handed to the READY exchange is Some(map with "Identity" -> the configured value)
+    exactly when the socket's identity option is Some, and None otherwise. The exchange is found by its signature (an async fn
+    taking Option<HashMap<String, Bytes>>), the option by its type; both path-sensitive and `option.map(|id| ..)` forms are read."""
+    exch = {}
+    for path, s in f.fns.items():
+        for i, ty in enumerate(s.get("inputs", [])):
+            if ty.startswith(PROPS_TY) and s.get("is_async"):
+                exch[path] = i
+    drivers = [b for b in f.bodies if b.j.get("coroutine_kind") and any(fn and callee_name(fn) in exch for _, _, fn in b.calls())]
+    rep.floor("R01.7", "handshake drivers calling the READY exchange (found by signature)", len(drivers), 1)
+    for b in drivers:
+        n = 0
+        for p in pathq.paths(f, b):
+            for i, ev in pathq.calls(p):
+                if ev.fnpath not in exch and ev.name not in exch:
+                    continue
+                n += 1
+                a = ev.args[exch.get(ev.fnpath, exch.get(ev.name))]
+                while a[0] == "ref":
+                    a = a[1]
+                st = pathq.option_decided(p, is_identity_option, ev.ncond)
+                if a[0] == "agg" and a[3] == "None":
+                    rep.check(st == 0, "R01.7", "R01.7|identity-iff-configured", "no properties are announced only on paths where the identity option was decided None (decided: %s)" % st, b.loc(ev.bb))
+                elif a[0] == "agg" and a[3] == "Some":
+                    ins = [e for e in p.events[:i] if _identity_insert(e, is_identity_option)]
+                    rep.check(len(ins) >= 1, "R01.7", "R01.7|identity-announced", "announced properties hold \"Identity\" -> the configured value (insert sites on path=%d)" % len(ins), b.loc(ev.bb))
+                    rep.check(st == 1, "R01.7", "R01.7|identity-iff-configured", "properties are announced only on paths where the identity option was decided Some (decided: %s)" % st, b.loc(ev.bb))
+                elif a[0] in ("call", "pure") and short(a[1]) == "map" and len(a[2]) == 2 and a[2][1][0] == "agg" and a[2][1][1] == "closure":
+                    src_ok = any(isinstance(x, tuple) and x and is_identity_option(x) for x in walk_expr(a[2][0]))
+                    cb = f.body(a[2][1][2])
+                    all_paths = cb is not None
+                    if cb is not None:
+                        for cp in pathq.paths(f, cb):
+                            if cp.end != "return":
+                                continue
+                            if not any(_identity_insert(e, lambda y: y[0] == "arg" and y[1] >= 2) for e in cp.events):
+                                all_paths = False
+                    rep.check(all_paths, "R01.7", "R01.7|identity-announced", "option.map(closure): every path of the closure inserts \"Identity\" -> its argument", b.loc(ev.bb))
+                    rep.check(src_ok, "R01.7", "R01.7|identity-iff-configured", "option.map(closure) maps the configured identity option itself (Some iff configured)", b.loc(ev.bb))
+                else:
+                    rep.bad("R01.7", "R01.7|identity-announced", "form of the announced properties not recognised: %s" % show(a)[:100], b.loc(ev.bb))
+        rep.floor("R01.7", "READY exchange calls in the handshake driver", n, 1)
 
 
 def check_decode_keeps_assembly(f, rep):
